@@ -1280,47 +1280,53 @@ func emptyUnit(u Unit) bool {
 }
 
 // NotOfAndGroupNoAtom: a Not call (at any depth) whose unit is AND-combined (a group of >= 2
-// Where/Not calls, or clause.And of >= 2 operands) and none of whose members is a single
-// structured condition: gorm renders NOT (a AND b) instead of "every member false".
+// Where/Not calls, clause.And of >= 2 operands, or a group whose only member is such a unit: gorm
+// unwraps it) and none of whose members is a single structured condition: gorm renders
+// NOT (a AND b) instead of "every member false".
 func NotOfAndGroupNoAtom(cs []Call) bool {
 	for _, c := range cs {
 		u := c.Unit
 		if u.Form == "group" && NotOfAndGroupNoAtom(u.Calls) {
 			return true
 		}
-		if c.Kind != "not" {
-			continue
+		if c.Kind == "not" && andCombinedNoAtom(u) {
+			return true
 		}
-		switch u.Form {
-		case "group":
-			n, anyAtom, anyOr := 0, false, false
-			for _, m := range u.Calls {
-				if emptyUnit(m.Unit) {
-					continue
-				}
-				n++
-				if m.Kind == "or" && n > 1 {
-					anyOr = true
-				}
-				if m.Kind == "where" && atomUnit(m.Unit) {
-					anyAtom = true
+	}
+	return false
+}
+
+func andCombinedNoAtom(u Unit) bool {
+	switch u.Form {
+	case "group":
+		n, anyAtom, anyOr := 0, false, false
+		var only Call
+		for _, m := range u.Calls {
+			if emptyUnit(m.Unit) {
+				continue
+			}
+			n++
+			only = m
+			if m.Kind == "or" && n > 1 {
+				anyOr = true
+			}
+			if m.Kind == "where" && atomUnit(m.Unit) {
+				anyAtom = true
+			}
+		}
+		if n >= 2 && !anyOr && !anyAtom {
+			return true
+		}
+		// a group of one Where call is that call's unit
+		return n == 1 && only.Kind == "where" && andCombinedNoAtom(only.Unit)
+	case "expr":
+		if u.CE.Kind == "and" && len(u.CE.Kids) >= 2 {
+			for _, k := range u.CE.Kids {
+				if k.Kind == "atom" {
+					return false
 				}
 			}
-			if n >= 2 && !anyOr && !anyAtom {
-				return true
-			}
-		case "expr":
-			if u.CE.Kind == "and" && len(u.CE.Kids) >= 2 {
-				anyAtom := false
-				for _, k := range u.CE.Kids {
-					if k.Kind == "atom" {
-						anyAtom = true
-					}
-				}
-				if !anyAtom {
-					return true
-				}
-			}
+			return true
 		}
 	}
 	return false
